@@ -185,6 +185,43 @@ theorem admin_requires_self (sub : Sub) (epoch : Int) (s : State) (a : Act)
     · simp only [hc]; unfold pureRes changeThreshold; simp [hne]
     · simp only [hc]; unfold pureRes lockBalance; simp [hne]
 
+/-- Signers, threshold and lock parameters (`Cfg`) after an activation differ from those before
+    it only if inside it the wallet sent *itself* one of the administrative methods 5–9 — for
+    every activation whose caller is not the wallet (every top-level message and every re-entrant
+    call of a foreign actor) and for every self-call of a non-administrative method; the wallet's
+    own id never changes.  Any call depth. -/
+theorem admin_only_self (fuel : Nat) (epoch : Int) (s : State) (a : Act)
+    (hc : a.msg.caller ≠ s.self ∨ a.msg.call.isAdmin = false) (s' : State) (ret : Ret)
+    (h : (exec fuel epoch s a).out = .ok (s', ret)) :
+    s'.self = s.self ∧
+    ((s'.signers, s'.threshold, s'.initial, s'.start, s'.duration) =
+       (s.signers, s.threshold, s.initial, s.start, s.duration) ∨
+     ∃ ev ∈ (exec fuel epoch s a).trace, ev.to = ev.pre.self ∧ 5 ≤ ev.method ∧ ev.method ≤ 9) :=
+  ⟨(exec_cfg epoch fuel s a).1 s' ret h, (exec_cfg epoch fuel s a).2 hc s' ret h⟩
+
+/-- The same over whole histories of messages sent by others than the wallet. -/
+theorem admin_only_self_run (fuel : Nat) : ∀ (ops : List Op) (s : State),
+    (∀ op ∈ ops, op.act.msg.caller ≠ s.self) →
+    (run fuel s ops).1.self = s.self ∧
+    (Cfg (run fuel s ops).1 = Cfg s ∨
+     ∃ ev ∈ (run fuel s ops).2, ev.to = ev.pre.self ∧ 5 ≤ ev.method ∧ ev.method ≤ 9)
+  | [], s, _ => ⟨rfl, Or.inl rfl⟩
+  | op :: rest, s, hc => by
+    have hop := hc op List.mem_cons_self
+    have h1 := exec_cfg op.epoch fuel s op.act
+    have hself : (step fuel s op).1.self = s.self := h1.1.stateOr
+    have hcfg : Cfg (step fuel s op).1 = Cfg s ∨
+        ∃ ev ∈ (step fuel s op).2.trace, SelfAdmin ev := (h1.2 (Or.inl hop)).stateOr
+    have ih := admin_only_self_run fuel rest (step fuel s op).1
+      (fun o ho => by rw [hself]; exact hc o (List.mem_cons_of_mem _ ho))
+    simp only [run]
+    refine ⟨ih.1.trans hself, ?_⟩
+    rcases hcfg with e1 | ⟨ev, hm, hv⟩
+    · rcases ih.2 with e2 | ⟨ev, hm, hv⟩
+      · exact Or.inl (e2.trans e1)
+      · exact Or.inr ⟨ev, List.mem_append_right _ hm, hv⟩
+    · exact Or.inr ⟨ev, List.mem_append_left _ hm, hv⟩
+
 /-! ### non-vacuity: a concrete wallet, a history with a self-call and a payment -/
 
 /-- 3 signers (11, 12, 13), threshold 2, wallet id 100, 50 attoFIL, locked linearly over 10 epochs
